@@ -12,6 +12,8 @@ that mention symbolic values (kept as the placeholder '<sym>').
 """
 import ast
 import builtins
+import functools
+import itertools
 import inspect
 import math
 import textwrap
@@ -479,6 +481,25 @@ class Interp:
                 return f(*args, **kw)
             except SymbolicTruthError:
                 raise OutsideSubset('sorted() of symbolic values')
+        if f in (itertools.chain, itertools.islice, itertools.product, itertools.zip_longest, itertools.starmap) or (
+                getattr(f, '__self__', None) is itertools.chain and getattr(f, '__name__', '') == 'from_iterable'):
+            # itertools that only regroup their items (no comparison, no arithmetic): run natively, handed on as an
+            # iterator the engine can look into
+            if f is itertools.starmap:
+                return SymIter([self.call(args[0], list(xs), {}) for xs in args[1]])
+            items = list(f(*[list(a) if isinstance(a, SymIter) else a for a in args], **kw))
+            return SymIter(items) if anysym(items) else iter(items)
+        if f is functools.reduce:
+            seq = list(args[1])
+            if len(args) > 2:
+                acc = args[2]
+            elif seq:
+                acc, seq = seq[0], seq[1:]
+            else:
+                raise Raised(TypeError('reduce() of empty iterable with no initial value'))
+            for x in seq:
+                acc = self.call(args[0], [acc, x], {})
+            return acc
         if f is map:
             return [self.call(args[0], list(xs), {}) for xs in zip(*args[1:])]
         if f is filter:
@@ -534,6 +555,20 @@ class Interp:
             # A4: a set with symbolic members is only ever queried through `in` (modelled as a disjunction of
             # equalities), so keeping two symbols that may be equal is harmless
             return f(*args)
+        if isinstance(s, dict) and name in ('get', 'setdefault', '__contains__') and args:
+            # a dictionary looked up with a symbolic key (or holding symbolic keys): the key is compared with the
+            # existing keys one after the other, each comparison being a branch of the path
+            key = args[0]
+            for k in list(s):
+                eq = self.cmp(ast.Eq(), k, key)
+                if self.truth(eq):
+                    return True if name == '__contains__' else s[k]
+            if name == '__contains__':
+                return False
+            default = args[1] if len(args) > 1 else None
+            if name == 'setdefault':
+                s[key] = default
+            return default
         if name in ('index', 'count', 'remove', '__contains__', 'add', 'discard', 'get', 'setdefault', 'pop', 'sort'):
             raise OutsideSubset(f'{type(s).__name__}.{name} needs equality of symbolic values')
         return f(*args, **kw)
